@@ -12,6 +12,9 @@
 import GoblVerif.Spec.C06
 import GoblVerif.Generated.CodecFacts
 import GoblVerif.Proofs.Codec
+import GoblVerif.Proofs.CodecMinimal
+import GoblVerif.Generated.CodecSrc
+import GoblVerif.Proofs.CodecSrc
 import GoblVerif.Proofs.Num
 import Mathlib.Tactic.Linarith
 import Mathlib.Tactic.FieldSimp
@@ -68,6 +71,45 @@ theorem min_int64_texts :
     amountToString ⟨-2 ^ 63, 2⟩ = "-92233720368547758.08".toList ∧
     amountToString ⟨-2 ^ 63, 18⟩ = "-9.223372036854775808".toList := by
   refine ⟨by decide +kernel, by decide +kernel, by decide +kernel⟩
+
+
+/-! ## amounts: the minimal text -/
+
+/-- `MinimalString` (trailing zeros of the decimals and a left-over point removed) of **any**
+    int64 amount with at most 18 decimals is a member of the published pattern … -/
+theorem minimal_string_matches (a : Amount) (he : a.exp ≤ 18)
+    (hlo : -(2 : ℤ) ^ 63 ≤ a.value) (hhi : a.value < (2 : ℤ) ^ 63) :
+    isAmountText (amountMinimalString a) = true := by
+  obtain ⟨v, e⟩ := a
+  simp only at he hlo hhi
+  obtain ⟨body, b, htext, hnm, hbody, _, _⟩ := amountMinimalString_parse v e he hlo hhi
+  rw [htext]
+  unfold isAmountText
+  by_cases hneg : v < 0
+  · simp only [hneg, decide_true, sgn, if_true]; exact hbody
+  · simp only [hneg, decide_false, sgn, Bool.false_eq_true, if_false]
+    rw [stripMinus_eq]
+    have : trimPrefixMinus body = body := by
+      cases body with
+      | nil => rfl
+      | cons c r =>
+        by_cases hc : c = '-'
+        · subst hc; simp [hasPrefixMinus] at hnm
+        · simp [trimPrefixMinus, hc]
+    rw [this]; exact hbody
+
+/-- … and it is read back as an amount of the **same value** (the exponent is the number of
+    decimals that are left). -/
+theorem minimal_string_preserves_value (a : Amount) (he : a.exp ≤ 18)
+    (hlo : -(2 : ℤ) ^ 63 ≤ a.value) (hhi : a.value < (2 : ℤ) ^ 63) :
+    ∃ b, amountFromString (amountMinimalString a) = .ok b ∧ b.toRat = a.toRat := by
+  obtain ⟨v, e⟩ := a
+  simp only at he hlo hhi
+  obtain ⟨body, b, htext, hnm, _, hparse, hval⟩ := amountMinimalString_parse v e he hlo hhi
+  exact ⟨b, by rw [htext, amountFromString_sgn _ body (fun _ => hnm), hparse], hval⟩
+
+example : amountMinimalString ⟨-1250, 2⟩ = "-12.5".toList ∧ amountMinimalString ⟨1000, 3⟩ = "1".toList ∧
+    amountMinimalString ⟨10, 0⟩ = "10".toList ∧ amountMinimalString ⟨0, 4⟩ = "0".toList := by decide
 
 /-! ## amounts: reading -/
 
@@ -567,5 +609,481 @@ theorem unmarshal_json_calls : calls_Amount_UnmarshalJSON = ["jsonText", "Amount
     conds_Percentage_UnmarshalJSON = ["err != nil || null", "text == \"\"", "err != nil"] := by decide
 
 end Expect
+
+
+/-! ## Src — the codec as it stands now, translated on this run
+
+`Generated/CodecSrc.lean` is written by the go2lean translator
+(harness/cmd/extract/go2lean*.go in string mode, configuration codecsrc.go,
+extension go2lean_codec.go) from /repo/num/amount.go and percentage.go on
+EVERY run of the check.  This namespace proves each regenerated definition
+equal to the corresponding function of Model/Codec.lean — the parser, its
+wrappers and the percentage reader for ALL arguments, the printers on every
+int64 value with at most 18 decimals (where `int64` arithmetic, unbounded in
+the translation, does not wrap) — and restates the headline theorems of C06
+directly over the regenerated definitions.  A change of the Go source changes
+the regenerated definitions and breaks a theorem here.
+
+Result shapes (Proofs/CodecSrc.lean): `toGo`, `toGoP` put an `Except Err _` of
+the model into Go's `(value, error)` pair (zero value and the FORMAT text of
+`fmt.Errorf` on an error), `toGoU cur` into the `(error, receiver afterwards)`
+pair of the in-out translation of `Unmarshal*` (the receiver keeps `cur` on an
+error), `jsonTextGo` the triple of `jsonText`.  A `[]byte` argument is
+`GoStrings.toBytes value` for a text `value` (every byte list is of that form). -/
+
+namespace Src
+open GoblVerif.Generated GoblVerif.GoSem GoblVerif.GoStr GoblVerif.CodecTie
+
+/-! ### the translation is complete; what it rests on -/
+
+theorem all_translated : CodecSrc.untranslated = [] := by decide
+
+theorem translated_functions : CodecSrc.translated =
+    ["intPow", "isDigits", "AmountFromString", "Amount.String", "Amount.MinimalString", "Amount.MarshalText",
+     "jsonText", "Amount.UnmarshalText", "Amount.UnmarshalJSON", "PercentageFromAmount", "PercentageFromString",
+     "Amount.Rescale", "Amount.RescaleUp", "Percentage.Amount", "Percentage.StringWithoutSymbol",
+     "Percentage.String", "Percentage.MarshalText", "Percentage.UnmarshalText", "Percentage.UnmarshalJSON"] := by
+  decide
+
+theorem struct_Amount_as_mapped :
+    CodecSrc.struct_Amount = [("value", "int64"), ("exp", "uint32")] ∧
+    CodecSrc.structLean_Amount = ("GoblVerif.Amount", ["value", "exp"]) ∧
+    CodecSrc.structOmitted_Amount = [] := by decide
+
+theorem struct_Percentage_as_mapped :
+    CodecSrc.struct_Percentage = [("amount", "Amount")] ∧
+    CodecSrc.structLean_Percentage = ("GoblVerif.Pct", ["amount"]) ∧
+    CodecSrc.structOmitted_Percentage = [] := by decide
+
+/-- every subtraction on `uint32` (truncated in the translation, wrapping in Go):
+    three are guarded syntactically, the fourth by `pct_amount_subtraction_guarded` -/
+theorem nat_subtractions_as_reviewed :
+    CodecSrc.natSubs = [
+      ("intPow", "exp--", ["exp != 0"]),
+      ("Amount.Rescale", "a.exp - exp", ["a.exp > exp"]),
+      ("Amount.Rescale", "exp - a.exp", ["a.exp < exp"]),
+      ("Percentage.Amount", "a.exp - 2", [])] := by decide
+
+/-- the two loops (`intPow`, the digit scan of `isDigits`) and their fuel twins -/
+theorem fuel_checks_listed : CodecSrc.fuelChecks = ["intPow_fuelOK", "isDigits_fuelOK"] := by decide
+
+/-- the four `Unmarshal*` methods write through their receiver: translated with the
+    receiver as a value that is also returned -/
+theorem in_out_params_as_reviewed :
+    CodecSrc.inOutParams = [("Amount.UnmarshalText", "a"), ("Amount.UnmarshalJSON", "a"),
+      ("Percentage.UnmarshalText", "p"), ("Percentage.UnmarshalJSON", "p")] := by decide
+
+/-- `error` is the only opaque type (an `Option` of the message text); no maps, no nil-free slices -/
+theorem opaque_types_as_reviewed :
+    CodecSrc.namedTypes = [("error", "interface{Error() string}", "Option GoblVerif.GoStr.Str")] ∧
+    CodecSrc.nonNilElems = [] ∧ CodecSrc.mapRanges = [] ∧ CodecSrc.mapWrites = [] ∧ CodecSrc.mapNilTests = [] := by
+  decide
+
+/-! ### each regenerated definition is the function of the model -/
+
+theorem src_intPow (base : Int) (e : Nat) : CodecSrc.intPow base e = base ^ e := by
+  unfold CodecSrc.intPow
+  simp only [Id.run]
+  rw [forIn_range_fuel _ (fun _ _ => rfl)]
+  simp only [bind, pure]
+  rw [forFuel_countdown _ (fun o => o * base) (by intro s; simp [Id.run]) (by intro k s; simp [Id.run])]
+  simp [iter_mul_int]
+
+theorem intPow_fuel_suffices (base : Int) (e : Nat) : CodecSrc.intPow_fuelOK base e = true := by
+  unfold CodecSrc.intPow_fuelOK
+  simp only [Id.run]
+  rw [forIn_range_fuel _ (fun _ _ => rfl)]
+  simp only [bind, pure]
+  rw [forFuel_countdown _ (fun o => o * base) (by intro s; simp [Id.run]) (by intro k s; simp [Id.run])]
+  simp
+
+/-- `isDigits` (the byte scan `for i := 0; i < len(s); i++`) is the model's `isDigits`, for every text -/
+theorem src_isDigits (s : Text) : CodecSrc.isDigits s = Codec.isDigits s := by
+  unfold CodecSrc.isDigits
+  simp only [Id.run]
+  by_cases h0 : (s.length : Int) = 0
+  · have : s = [] := by
+      cases s with
+      | nil => rfl
+      | cons c r => simp at h0; omega
+    subst this; rfl
+  · simp only [h0, if_false]
+    rw [forIn_range_fuel _ (fun _ _ => rfl)]
+    simp only [bind, pure]
+    rw [(forFuel_digitScan0 s false _ (by intro b; simp only [digitScanStep, Id.run])).1]
+    have hne : s.isEmpty = false := by
+      cases s with
+      | nil => simp at h0
+      | cons c r => rfl
+    unfold Codec.isDigits
+    simp only [hne, Bool.not_false, Bool.true_and]
+    by_cases ha : s.all isDigitC = true <;> simp [ha]
+
+theorem isDigits_fuel_suffices (s : Text) : CodecSrc.isDigits_fuelOK s = true := by
+  unfold CodecSrc.isDigits_fuelOK
+  simp only [Id.run]
+  by_cases h0 : (s.length : Int) = 0
+  · simp [h0, id_pure]
+  · simp only [h0, if_false]
+    rw [forIn_range_fuel _ (fun _ _ => rfl)]
+    simp only [bind, pure]
+    rw [forFuel_congr _ (digitScanStep s true) (by intro b; simp only [digitScanStep, Id.run])]
+    obtain ⟨k1, k2⟩ := forFuel_digitScan0 s true (digitScanStep s true) (fun _ => rfl)
+    by_cases ha : s.all isDigitC = true
+    · simp only [ha, if_true] at k1
+      rw [k1, k2 k1]
+      simp
+    · simp only [ha] at k1
+      rw [k1]
+      rfl
+
+/-- **`AmountFromString` is the model's `amountFromString` for EVERY text** — the value, the
+    exponent, and on an error the zero amount with the format text of the error
+    (`errFormat`).  The translation computes on unbounded integers, the model wraps at 64
+    bits: the equality says that no product or sum of the parser can overflow (the range
+    guard `v > (math.MaxInt64-v2)/p`, its mirror on the negative side, the 18-decimal cap
+    and `ParseInt`'s own range error see to it). -/
+theorem src_AmountFromString (val : Text) : CodecSrc.AmountFromString val = toGo (amountFromString val) := by
+  unfold CodecSrc.AmountFromString amountFromString
+  simp only [Id.run, hasPrefix_minus, split_dot, parseInt_eq, trimPrefix_minus, src_isDigits, src_intPow]
+  have hh := hasPrefixMinus_split_head val
+  match hs : splitOn '.' val with
+  | [] => exact absurd hs (splitOn_ne_nil '.' val)
+  | [x0] =>
+    have i0 : ([x0] : List Text)[Int.toNat 0]! = x0 := rfl
+    simp only [i0, List.length_singleton]
+    rw [← parts1_eq]
+    simp [id_pure]
+  | [x0, x1] =>
+    have i0 : ([x0, x1] : List Text)[Int.toNat 0]! = x0 := rfl
+    have i1 : ([x0, x1] : List Text)[Int.toNat 1]! = x1 := rfl
+    have hn : hasPrefixMinus val = hasPrefixMinus x0 := by rw [← hh, hs]; rfl
+    simp only [i0, i1, hn]
+    rw [← parts2_eq]
+    simp [id_pure]
+  | x0 :: x1 :: x2 :: r =>
+    have : ((x0 :: x1 :: x2 :: r).length : Int) > 2 := by simp; omega
+    have h2 : (x0 :: x1 :: x2 :: r).length > 2 := by simp
+    simp only [this, if_true, parseParts, h2, toGo, errFormat]
+    rfl
+
+/-- `Amount.String` is the model's `amountToString` on every int64 value with at most 18
+    decimals (and beyond 1000, where both say "NA"); for 19 … 1000 decimals the Go code
+    works with a wrapped `10^exp`, which the unbounded translation does not show. -/
+theorem src_String (a : Amount) (he : a.exp ≤ 18 ∨ 1000 < a.exp)
+    (hlo : minInt64 ≤ a.value) (hhi : a.value ≤ maxInt64) :
+    CodecSrc.Amount_String a = amountToString a := by
+  obtain ⟨v, e⟩ := a
+  simp only at he hlo hhi
+  unfold CodecSrc.Amount_String
+  simp only [Id.run, itoa_eq, fmtPad0_eq, src_intPow]
+  by_cases h0 : e = 0
+  · subst h0; simp [amountToString, id_pure]
+  by_cases h1 : e > 1000
+  · simp [amountToString, h0, h1, id_pure]
+  have he' : e ≤ 18 := by omega
+  rw [amountToString_nowrap v e (by omega) he' hlo hhi]
+  by_cases hneg : v < 0 <;> simp [h0, h1, hneg, id_pure]
+
+theorem src_MinimalString (a : Amount) (he : a.exp ≤ 18 ∨ 1000 < a.exp)
+    (hlo : minInt64 ≤ a.value) (hhi : a.value ≤ maxInt64) :
+    CodecSrc.Amount_MinimalString a = amountMinimalString a := by
+  unfold CodecSrc.Amount_MinimalString amountMinimalString
+  simp only [Id.run, src_String a he hlo hhi, contains_dot, trimRight_zeros, trimSuffix_dot]
+  by_cases h : (amountToString a).contains '.' = true <;> simp [h, id_pure]
+
+theorem src_MarshalText (a : Amount) (he : a.exp ≤ 18 ∨ 1000 < a.exp)
+    (hlo : minInt64 ≤ a.value) (hhi : a.value ≤ maxInt64) :
+    CodecSrc.Amount_MarshalText a = (GoStrings.toBytes (amountToString a), none) := by
+  unfold CodecSrc.Amount_MarshalText
+  rw [src_String a he hlo hhi]
+
+/-- `jsonText` (a value that starts with a quote goes through `json.Unmarshal`, anything
+    else is taken as it is; only the literal `null` is null), for every byte string -/
+theorem src_jsonText (value : Text) :
+    CodecSrc.jsonText (GoStrings.toBytes value) = jsonTextGo (Codec.jsonText value) := by
+  unfold CodecSrc.jsonText Codec.jsonText
+  simp only [Id.run, ofBytes_toBytes, toBytes_length]
+  cases value with
+  | nil => simp [jsonTextGo, nullText, id_pure]
+  | cons c r =>
+    have i0 : (GoStrings.toBytes (c :: r))[Int.toNat 0]! = c.toNat := rfl
+    simp only [i0, toNat_eq_34, List.head?_cons]
+    by_cases hq : c = '"'
+    · subst hq
+      simp only [GoJson.unmarshalString, ofBytes_toBytes]
+      cases hd : jsonDecodeString ('"' :: r) with
+      | none => simp [jsonTextGo, id_pure]
+      | some t => simp [jsonTextGo, id_pure]
+    · have : (some c == some '"') = false := by simp [hq]
+      simp [hq, this, jsonTextGo, id_pure, nullText, beq_eq_decide]
+
+theorem src_UnmarshalText (cur : Amount) (value : Text) :
+    CodecSrc.Amount_UnmarshalText cur (GoStrings.toBytes value) = toGoU cur (amountUnmarshalText cur value) := by
+  unfold CodecSrc.Amount_UnmarshalText amountUnmarshalText
+  simp only [Id.run, ofBytes_toBytes, src_AmountFromString]
+  by_cases hn : value = nullText
+  · subst hn; simp [toGoU, nullText, id_pure]
+  · have : ¬ value = ['n', 'u', 'l', 'l'] := hn
+    simp only [this, hn, if_false]
+    generalize amountFromString value = x
+    cases x <;> simp [toGo, toGoU, GoStr.errNew, id_pure]
+
+theorem src_UnmarshalJSON (cur : Amount) (value : Text) :
+    CodecSrc.Amount_UnmarshalJSON cur (GoStrings.toBytes value) = toGoU cur (amountUnmarshalJSON cur value) := by
+  unfold CodecSrc.Amount_UnmarshalJSON amountUnmarshalJSON
+  simp only [Id.run, src_jsonText, src_AmountFromString]
+  cases hj : Codec.jsonText value with
+  | error e => 
+    have he := jsonText_error value e hj
+    subst he
+    simp [jsonTextGo, toGoU, id_pure, errJson_eq]
+  | ok p =>
+    obtain ⟨t, null⟩ := p
+    simp only [jsonTextGo]
+    cases null
+    · obtain ⟨x, hx⟩ : ∃ x, amountFromString t = x := ⟨_, rfl⟩
+      simp only [hx]
+      cases x <;> simp [toGo, toGoU, GoStr.errNew, id_pure]
+    · simp [toGoU, id_pure]
+
+theorem src_PercentageFromAmount (a : Amount) : CodecSrc.PercentageFromAmount a = Pct.ofAmount a := rfl
+
+/-- `PercentageFromString` is the model's `percentageFromString` for EVERY text -/
+theorem src_PercentageFromString (str : Text) :
+    CodecSrc.PercentageFromString str = toGoP (percentageFromString str) := by
+  unfold CodecSrc.PercentageFromString percentageFromString
+  simp only [Id.run, src_AmountFromString, src_PercentageFromAmount, take_last_eq]
+  by_cases h0 : str = []
+  · subst h0; simp [toGoP, id_pure]
+  have hl : ¬ ((str.length : Int) = 0) := by
+    cases str with
+    | nil => exact absurd rfl h0
+    | cons c r => simp; omega
+  have he : str.isEmpty = false := by cases str <;> simp_all
+  simp only [hl, if_false, he, drop_last_eq str '%' h0, Bool.false_eq_true]
+  by_cases hp : str.getLast? = some '%'
+  · have hb : (str.getLast? == some '%') = true := by simp [hp]
+    simp only [hp, hb, if_true]
+    obtain ⟨x, hx⟩ : ∃ x, amountFromString str.dropLast = x := ⟨_, rfl⟩
+    simp only [hx]
+    cases x <;> simp [hx, toGo, toGoP, GoStr.errNew, id_pure]
+  · have hb : (str.getLast? == some '%') = false := by simp [hp]
+    simp only [hp, hb, if_false, Bool.false_eq_true]
+    obtain ⟨x, hx⟩ : ∃ x, amountFromString str = x := ⟨_, rfl⟩
+    simp only [hx]
+    cases x <;> simp [hx, toGo, toGoP, GoStr.errNew, id_pure]
+
+theorem src_Rescale (a : Amount) (e : Nat) : CodecSrc.Amount_Rescale a e = a.rescale e := by
+  unfold CodecSrc.Amount_Rescale Amount.rescale
+  simp only [src_intPow]
+  rfl
+
+theorem src_RescaleUp (a : Amount) (e : Nat) : CodecSrc.Amount_RescaleUp a e = a.rescaleUp e := by
+  unfold CodecSrc.Amount_RescaleUp Amount.rescaleUp
+  simp only [src_Rescale]
+  rfl
+
+theorem src_Percentage_Amount (p : Pct) : CodecSrc.Percentage_Amount p = p.toAmount := by
+  unfold CodecSrc.Percentage_Amount Pct.toAmount
+  simp only [src_RescaleUp]
+  rfl
+
+/-- the subtraction `a.exp - 2` in `Percentage.Amount` never truncates: `RescaleUp(2)` came first -/
+theorem pct_amount_subtraction_guarded (p : Pct) : 2 ≤ (CodecSrc.Amount_RescaleUp p.amount 2).exp := by
+  rw [src_RescaleUp]
+  unfold Amount.rescaleUp Amount.rescale
+  by_cases h : 2 > p.amount.exp
+  · have h1 : ¬ p.amount.exp > 2 := by omega
+    have h2 : p.amount.exp < 2 := by omega
+    simp [h, h1]
+  · simp only [h, if_false]; omega
+
+/-- `Percentage.StringWithoutSymbol` / `String` are the model's, wherever the percent figure
+    `p.toAmount` is an int64 with at most 18 decimals -/
+theorem src_StringWithoutSymbol (p : Pct) (he : p.toAmount.exp ≤ 18 ∨ 1000 < p.toAmount.exp)
+    (hlo : minInt64 ≤ p.toAmount.value) (hhi : p.toAmount.value ≤ maxInt64) :
+    CodecSrc.Percentage_StringWithoutSymbol p = amountToString p.toAmount := by
+  unfold CodecSrc.Percentage_StringWithoutSymbol
+  rw [src_Percentage_Amount, src_String _ he hlo hhi]
+
+theorem src_Percentage_String (p : Pct) (he : p.toAmount.exp ≤ 18 ∨ 1000 < p.toAmount.exp)
+    (hlo : minInt64 ≤ p.toAmount.value) (hhi : p.toAmount.value ≤ maxInt64) :
+    CodecSrc.Percentage_String p = pctToString p := by
+  unfold CodecSrc.Percentage_String pctToString
+  rw [src_StringWithoutSymbol p he hlo hhi]
+
+theorem src_Percentage_MarshalText (p : Pct) (he : p.toAmount.exp ≤ 18 ∨ 1000 < p.toAmount.exp)
+    (hlo : minInt64 ≤ p.toAmount.value) (hhi : p.toAmount.value ≤ maxInt64) :
+    CodecSrc.Percentage_MarshalText p = (GoStrings.toBytes (pctToString p), none) := by
+  unfold CodecSrc.Percentage_MarshalText
+  rw [src_Percentage_String p he hlo hhi]
+
+theorem src_Percentage_UnmarshalText (cur : Pct) (value : Text) :
+    CodecSrc.Percentage_UnmarshalText cur (GoStrings.toBytes value) = toGoU cur (pctUnmarshalText cur value) := by
+  unfold CodecSrc.Percentage_UnmarshalText pctUnmarshalText
+  simp only [Id.run, ofBytes_toBytes, src_PercentageFromString]
+  by_cases hn : value = nullText
+  · subst hn; simp [toGoU, nullText, id_pure]
+  · have : ¬ value = ['n', 'u', 'l', 'l'] := hn
+    simp only [this, hn, if_false]
+    generalize percentageFromString value = x
+    cases x <;> simp [toGoP, toGoU, GoStr.errNew, id_pure]
+
+theorem src_Percentage_UnmarshalJSON (cur : Pct) (value : Text) :
+    CodecSrc.Percentage_UnmarshalJSON cur (GoStrings.toBytes value) = toGoU cur (pctUnmarshalJSON cur value) := by
+  unfold CodecSrc.Percentage_UnmarshalJSON pctUnmarshalJSON
+  simp only [Id.run, src_jsonText, src_PercentageFromString]
+  cases hj : Codec.jsonText value with
+  | error e =>
+    have he := jsonText_error value e hj
+    subst he
+    simp [jsonTextGo, toGoU, id_pure, errJson_eq]
+  | ok p =>
+    obtain ⟨t, null⟩ := p
+    simp only [jsonTextGo]
+    cases null
+    · by_cases ht : t = []
+      · subst ht; simp [toGoU, errFormat, id_pure]
+      · have hte : t.isEmpty = false := by cases t <;> simp_all
+        obtain ⟨x, hx⟩ : ∃ x, percentageFromString t = x := ⟨_, rfl⟩
+        simp only [hx]
+        cases x <;> simp [ht, hte, toGoP, toGoU, GoStr.errNew, id_pure]
+    · simp [toGoU, id_pure]
+
+/-! ### the headline theorems of C06, read off the regenerated code -/
+
+/-- ROUND TRIP, over the translated `String` and `AmountFromString`: every int64 amount
+    with at most 18 decimals (−2^63 included) is written and read back unchanged, without
+    an error. -/
+theorem roundtrip_of_the_source (a : Amount) (he : a.exp ≤ 18)
+    (hlo : -(2 : ℤ) ^ 63 ≤ a.value) (hhi : a.value < (2 : ℤ) ^ 63) :
+    CodecSrc.AmountFromString (CodecSrc.Amount_String a) = (a, none) := by
+  have h1 : minInt64 ≤ a.value := by unfold minInt64; norm_num at hlo; omega
+  have h2 : a.value ≤ maxInt64 := by unfold maxInt64; norm_num at hhi; omega
+  rw [src_String a (Or.inl he) h1 h2, src_AmountFromString, amount_roundtrip a he hlo hhi]
+  rfl
+
+example : CodecSrc.AmountFromString (CodecSrc.Amount_String ⟨-2 ^ 63, 18⟩) = (⟨-2 ^ 63, 18⟩, none) :=
+  roundtrip_of_the_source _ (by decide) (by norm_num) (by norm_num)
+
+/-- the same through `MarshalText` / `UnmarshalText`, whatever the receiver held before -/
+theorem marshal_unmarshal_of_the_source (cur a : Amount) (he : a.exp ≤ 18)
+    (hlo : -(2 : ℤ) ^ 63 ≤ a.value) (hhi : a.value < (2 : ℤ) ^ 63) :
+    CodecSrc.Amount_UnmarshalText cur (CodecSrc.Amount_MarshalText a).1 = (none, a) := by
+  have h1 : minInt64 ≤ a.value := by unfold minInt64; norm_num at hlo; omega
+  have h2 : a.value ≤ maxInt64 := by unfold maxInt64; norm_num at hhi; omega
+  rw [src_MarshalText a (Or.inl he) h1 h2, src_UnmarshalText]
+  unfold amountUnmarshalText
+  have hne : amountToString a ≠ nullText := by
+    intro e
+    have := amount_text_matches a he hlo hhi
+    rw [e] at this
+    revert this; decide
+  simp only [hne, if_false, amount_roundtrip a he hlo hhi]
+  rfl
+
+/-- the written text of the translated `String` is a member of the published pattern -/
+theorem text_matches_of_the_source (a : Amount) (he : a.exp ≤ 18)
+    (hlo : -(2 : ℤ) ^ 63 ≤ a.value) (hhi : a.value < (2 : ℤ) ^ 63) :
+    isAmountText (CodecSrc.Amount_String a) = true := by
+  have h1 : minInt64 ≤ a.value := by unfold minInt64; norm_num at hlo; omega
+  have h2 : a.value ≤ maxInt64 := by unfold maxInt64; norm_num at hhi; omega
+  rw [src_String a (Or.inl he) h1 h2]
+  exact amount_text_matches a he hlo hhi
+
+/-- ACCEPTS ↔ PATTERN ∧ FITS, over the translated `AmountFromString`: the error is nil
+    exactly on the members of `^\-?[0-9]+(\.[0-9]+)?$` whose signed digits are an int64
+    with at most 18 decimals. -/
+theorem accepts_iff_of_the_source (s : Text) :
+    (CodecSrc.AmountFromString s).2 = none ↔ (isAmountText s = true ∧ fits64 s = true) := by
+  rw [src_AmountFromString, ← amount_accepts_iff]
+  cases h : amountFromString s with
+  | ok a => simp [toGo]
+  | error e => simp [toGo, GoStr.errNew]
+
+example : (CodecSrc.AmountFromString "-12.50".toList).2 = none ∧
+    (CodecSrc.AmountFromString "9.223372036854775808".toList).2 ≠ none ∧
+    (CodecSrc.AmountFromString "+5".toList).2 ≠ none := by
+  refine ⟨(accepts_iff_of_the_source _).mpr (by decide), ?_, ?_⟩
+  · intro h; exact absurd ((accepts_iff_of_the_source _).mp h) (by decide)
+  · intro h; exact absurd ((accepts_iff_of_the_source _).mp h) (by decide)
+
+/-- … and what it accepts it reads as the number the text denotes, at the written precision;
+    what it rejects comes back as the zero amount -/
+theorem reads_value_of_the_source (s : Text) :
+    ((CodecSrc.AmountFromString s).2 = none →
+      (CodecSrc.AmountFromString s).1.toRat = decimalValue s ∧ (CodecSrc.AmountFromString s).1.exp = decimals s) ∧
+    ((CodecSrc.AmountFromString s).2 ≠ none → (CodecSrc.AmountFromString s).1 = ⟨0, 0⟩) := by
+  rw [src_AmountFromString]
+  cases h : amountFromString s with
+  | ok a => simpa [toGo] using amount_reads_value s a h
+  | error e => simp [toGo, GoStr.errNew]
+
+/-- PERCENTAGES, over the translated `String` and `PercentageFromString`: writing and reading
+    back gives a percentage of the same value (the identical one from two decimals on) -/
+theorem percentage_roundtrip_of_the_source (p : Pct) (he : p.amount.exp ≤ 20)
+    (hlo : -(2 : ℤ) ^ 63 ≤ p.amount.value * 10 ^ (2 - p.amount.exp))
+    (hhi : p.amount.value * 10 ^ (2 - p.amount.exp) < (2 : ℤ) ^ 63) :
+    (CodecSrc.PercentageFromString (CodecSrc.Percentage_String p)).2 = none ∧
+    (CodecSrc.PercentageFromString (CodecSrc.Percentage_String p)).1.amount.toRat = p.amount.toRat ∧
+    (2 ≤ p.amount.exp → (CodecSrc.PercentageFromString (CodecSrc.Percentage_String p)).1 = p) := by
+  obtain ⟨q, hq, hv, hs⟩ := percentage_roundtrip_value p he hlo hhi
+  obtain ⟨⟨v, e⟩⟩ := p
+  simp only at he hlo hhi
+  obtain ⟨A, hA, hAe, hAv, _, _⟩ := pct_written v e he
+  have h1 : minInt64 ≤ A.value := by rw [hAv]; unfold minInt64; norm_num at hlo; omega
+  have h2 : A.value ≤ maxInt64 := by rw [hAv]; unfold maxInt64; norm_num at hhi; omega
+  rw [src_Percentage_String _ (by rw [hA]; exact Or.inl hAe) (by rw [hA]; exact h1) (by rw [hA]; exact h2),
+    src_PercentageFromString, hq]
+  exact ⟨rfl, hv, hs⟩
+
+/-- what the translated `PercentageFromString` accepts, exactly -/
+theorem percentage_accepts_iff_of_the_source (s : Text) :
+    (CodecSrc.PercentageFromString s).2 = none ↔
+      (s = [] ∨ (isAmountText (pctBody s) = true ∧ fits64 (pctBody s) = true)) := by
+  rw [src_PercentageFromString, ← percentage_accepts_iff]
+  cases h : percentageFromString s with
+  | ok a => simp [toGoP]
+  | error e => simp [toGoP, GoStr.errNew]
+
+/-- JSON, over the translated `UnmarshalJSON`: a JSON string is read exactly as
+    `AmountFromString` reads its VALUE, whichever characters are spelled as `\u00XX` -/
+theorem json_string_read_by_value_of_the_source (cur : Amount) (mask : List Bool) (s : Text)
+    (hs : ∀ c ∈ s, jsonPlain c = true) :
+    CodecSrc.Amount_UnmarshalJSON cur (GoStrings.toBytes (jsonSpelling mask s)) =
+      ((CodecSrc.AmountFromString s).2, if (CodecSrc.AmountFromString s).2 = none then (CodecSrc.AmountFromString s).1 else cur) := by
+  rw [src_UnmarshalJSON, json_string_read_by_value cur mask s hs, src_AmountFromString]
+  cases h : amountFromString s with
+  | ok a => simp [toGo, toGoU]
+  | error e => simp [toGo, toGoU, GoStr.errNew]
+
+/-- only the literal `null` leaves the receiver alone without an error; the STRING "null" is an error -/
+theorem json_null_of_the_source (cur : Amount) :
+    CodecSrc.Amount_UnmarshalJSON cur (GoStrings.toBytes "null".toList) = (none, cur) ∧
+    (CodecSrc.Amount_UnmarshalJSON cur (GoStrings.toBytes "\"null\"".toList)).1 ≠ none := by
+  rw [src_UnmarshalJSON, src_UnmarshalJSON]
+  constructor
+  · rfl
+  · have : amountUnmarshalJSON cur "\"null\"".toList = .error .major := rfl
+    rw [this]
+    simp [toGoU, GoStr.errNew]
+
+/-- MINIMAL STRING, over the translated `MinimalString` and `AmountFromString`: the text of every
+    int64 amount with at most 18 decimals is a member of the pattern and is read back, without an
+    error, as an amount of the same value -/
+theorem minimal_string_of_the_source (a : Amount) (he : a.exp ≤ 18)
+    (hlo : -(2 : ℤ) ^ 63 ≤ a.value) (hhi : a.value < (2 : ℤ) ^ 63) :
+    isAmountText (CodecSrc.Amount_MinimalString a) = true ∧
+    (CodecSrc.AmountFromString (CodecSrc.Amount_MinimalString a)).2 = none ∧
+    (CodecSrc.AmountFromString (CodecSrc.Amount_MinimalString a)).1.toRat = a.toRat := by
+  have h1 : minInt64 ≤ a.value := by unfold minInt64; norm_num at hlo; omega
+  have h2 : a.value ≤ maxInt64 := by unfold maxInt64; norm_num at hhi; omega
+  rw [src_MinimalString a (Or.inl he) h1 h2, src_AmountFromString]
+  obtain ⟨b, hb, hv⟩ := minimal_string_preserves_value a he hlo hhi
+  rw [hb]
+  exact ⟨minimal_string_matches a he hlo hhi, rfl, hv⟩
+
+end Src
 
 end GoblVerif.Props.C06
